@@ -1561,6 +1561,9 @@ func (ctx drawContext) drawText(textbox *bo.TextBox, offsetX fl, textOverflow st
 	var offsetY pr.Float
 
 	metrics := textbox.TextLayout.Metrics()
+	if metrics == nil { // not provided by the text engine : decorations can't be positioned
+		decoration = 0
+	}
 
 	if decoration&pr.Overline != 0 {
 		thickness := metrics.UnderlineThickness
